@@ -14,7 +14,12 @@ MANIFEST = dict(
           "elements with their full subtrees, in order, and nothing else; a string-only filter keeps no tag and exactly the matching text "
           "runs; a filter with both kinds of criteria keeps nothing (see evidence 'theorems'). Tie: generated well-formed documents x a "
           "filter grammar (name: str/list/regex; attribute: str/regex/True/False on single-valued attributes; string-only; mixed) parsed "
-          "with parse_only and compared with the outermost matches computed from the generator's tree."),
+          "with parse_only and compared with the outermost matches computed from the generator's tree. The filter itself: "
+          "SoupStrainer.allow_tag_creation / allow_string_creation are mirrored on C10's rule model (Model/StrainerParse.lean) and proved "
+          "equal to matches_tag for every function-free-name, string-criterion-free strainer with at least one rule and every tag whose "
+          "attributes are single strings (allow_tag_creation_eq_matches_tag), with the three kinds of strainer read off the code "
+          "(tag_strainer_refuses_strings, string_strainer_refuses_tags, string_strainer_keeps_matching_strings); tied by the "
+          "'strainer-parse' stream: C10's criteria grammar x prospective tags, real allow_* vs the mirror and vs matches_tag of the finished tag."),
     design="7/C16",
     note=("Filters are evaluated on single-valued attributes only (the property's quantifier); matching itself is C10's. Known finding: "
           "a kept element inside a DROPPED whitespace-preserving or string-container ancestor loses that context."),
@@ -345,6 +350,7 @@ def run(ctx: Ctx):
         check_one(ctx, nodes, text, f, "generated", lines, impls, mcases)
     import re as _re
     drv = Driver()
+    strainer_parse_stream(ctx, drv)
     rep = drv.ask(lines)
     for l, a, b, c in zip(lines, impls, rep, mcases):
         b = _re.sub(r"\|e\d+>", "|->", b)
@@ -352,6 +358,84 @@ def run(ctx: Ctx):
             ctx.corr_disagreements += 1
             ctx.violation("model (filtered fold of the intended events) and implementation disagree", case=c | {"line": l[:2000]},
                           observed=a, model=b, stream="correspondence", no_failing_input=True)
+
+
+def strainer_parse_stream(ctx: Ctx, drv):
+    """The filter itself (Model/StrainerParse.lean, Props/C16 allow_tag_creation_eq_matches_tag): for SoupStrainers from C10's criteria
+    grammar (strings, bytes, regexes, functions, True/False, numbers, lists incl. empty and nested) and prospective tags (prefix, name,
+    RAW single-string attributes): real `allow_tag_creation` vs the Lean code-mirror; `allow_string_creation` likewise; and the theorem's
+    content on the real code: for function-free name criteria, no string criteria and at least one rule, `allow_tag_creation` equals
+    `matches_tag` of the finished tag."""
+    from . import c10
+    from bs4 import SoupStrainer
+    from bs4.element import Tag
+    from .common import tok
+    names = ["a", "b", "p", "pre", "x-y", "svg:a", "A", ""]
+    prefixes = [None, None, None, "svg", "p", ""]
+    keys = ["id", "k", "href", "class", "title"]
+    vals = ["x", "a b", "", "v", "1", "abc", "u", "big red", " "]
+    uni = sorted(set(names + vals + ["svg:a", "svg:b", "p:a", "p:p", "svg:p", "p:b"] + [f"{p}:{n}" for p in ("svg", "p") for n in names]))
+    lines, impls, cases = [], [], []
+    n_eq = 0
+    for i in range(ctx.n(4000, 60000)):
+        r = ctx.rng("strainer-parse", i)
+        pool = names[:6] + vals
+        name_c = c10.gen_crit(r, names[:6] + ["svg:a", "p:b"], "attr") if r.random() < 0.6 else ("n",)   # role 'attr': functions of a str
+        pairs = [(k, c10.gen_crit(r, vals, "attr")) for k in r.sample(keys, r.choice([0, 0, 1, 1, 2]))]     # distinct keys
+        string_c = c10.gen_crit(r, vals, "string") if r.random() < 0.15 else ("n",)
+        in_dict = [pc for pc in pairs if r.random() < 0.7]
+        in_kw = [(k if k != "class" else "class_", c) for k, c in pairs if (k, c) not in in_dict]
+        q = c10.Q(name=name_c, attrs=("D", in_dict), string=string_c, kwargs=in_kw)
+        fnmk = lambda j: (lambda s, j=j: c10.str_fn(j, s))
+        kw = {("class_" if k == "class_" else k): c10.py_crit(c, fnmk) for k, c in q.kwargs}
+        try:
+            import warnings as _w
+            with _w.catch_warnings():
+                _w.simplefilter("ignore")
+                st = SoupStrainer(name=c10.py_crit(q.name, fnmk), attrs={k: c10.py_crit(c, fnmk) for k, c in q.attrs[1]},
+                                  string=c10.py_crit(q.string, fnmk), **kw)
+        except Exception as e:
+            ctx.violation(f"SoupStrainer(...) raised {type(e).__name__}: {e}", case={"query": q.describe()}, stream="strainer-parse")
+            continue
+        re_t = ";".join(f"{j}:{tok(s)}:1" for j in sorted(q.re_ids()) for s in uni if c10._RE[j].search(s) is not None) or "-"
+        fs = ";".join([f"{j}:{tok(s)}:1" for j in sorted(q.fn_ids()) for s in uni if c10.str_fn(j, s)] +
+                      [f"{j}:~:1" for j in sorted(q.fn_ids()) if c10.str_fn(j, None)]) or "-"
+        name_fn_free = not any(a[0] == "f" for a in c10.atoms(q.name))
+        for _ in range(4):
+            pfx = r.choice(prefixes)
+            nm = r.choice(names)
+            raw = {}
+            for k in r.sample(keys, r.randint(0, 3)):
+                raw[k] = r.choice(vals)
+            got = bool(st.allow_tag_creation(pfx, nm, dict(raw) if raw or r.random() < 0.7 else None))
+            rawtok = "&".join(f"{tok(k)}={tok(v) if v else 'e'}" for k, v in raw.items()) or "-"
+            ptok = "~" if pfx is None else (tok(pfx) if pfx else "e")
+            lines.append(f"c16 allow {q.enc()} {re_t} {fs} {ptok} {tok(nm) if nm else 'e'} {rawtok}")
+            impls.append("1" if got else "0")
+            cases.append({"query": q.describe(), "prefix": pfx, "name": nm, "raw": raw})
+            ctx.count("strainer-parse:allow=" + str(got))
+            # the theorem on the real code
+            if name_fn_free and not st.string_rules and (st.name_rules or st.attribute_rules) and nm:
+                tag = Tag(name=nm, prefix=pfx, attrs=dict(raw))
+                tag.attrs = dict(raw)                   # single strings, as html.parser with multi_valued_attributes=None stores them
+                m = bool(st.matches_tag(tag))
+                n_eq += 1
+                ctx.case(("SP", i, pfx, nm, tuple(sorted(raw.items()))) if got else None)
+                if m != got:
+                    ctx.violation("allow_tag_creation (asked before the tag exists) differs from matches_tag (asked of the finished tag) for a "
+                                  "single-valued tag", case=cases[-1], expected=m, observed=got, stream="strainer-parse")
+        for sv in r.sample(vals, 2):
+            got = bool(st.allow_string_creation(sv))
+            lines.append(f"c16 allowstr {q.enc()} {re_t} {fs} {tok(sv) if sv else 'e'}")
+            impls.append("1" if got else "0")
+            cases.append({"query": q.describe(), "string": sv})
+    ctx.count("strainer-parse:parse-time=search-time comparisons", n_eq)
+    rep = drv.ask(lines)
+    for l, a, b, c in zip(lines, impls, rep, cases):
+        if a != b:
+            ctx.corr_disagreements += 1
+            ctx.violation("Lean code-mirror of allow_tag_creation/allow_string_creation and the implementation disagree", case=c | {"line": l[:1500]},
+                          observed=a, model=b, stream="strainer-parse", no_failing_input=True)
 
 
 def tuple_tree(n):
